@@ -26,7 +26,7 @@ Strings(s) == {<<c>> : c \in Chars \cup Ctl} \cup {<<65, 13, 66>>}
 Actions(s) ==
     {[op |-> "print", s |-> x, nl |-> FALSE] : x \in Strings(s)}
     \cup {[op |-> "print", s |-> x, nl |-> TRUE] : x \in {<<>>, <<65>>, Pat(s.w)}}
-    \cup {[op |-> "locate", r |-> r, c |-> c] : r \in 0..(s.h + 1), c \in 0..(s.w + 1)}
+    \cup {[op |-> "locate", r |-> r, c |-> c] : r \in -1..(s.h + 1), c \in -1..(s.w + 1)}
     \cup {[op |-> "cls"]}
     \cup {[op |-> "viewprint", t |-> t, b |-> b] : t \in 0..s.h, b \in 0..s.h}
     \cup {[op |-> "width", n |-> x, fresh |-> x # s.w, nw |-> x, nmode |-> 0] : x \in (IF s.mode = 0 THEN TextWidths ELSE {})}
@@ -62,7 +62,7 @@ OutsideWindowUnchanged ==
     [][(act'.op \in {"print", "cls"} /\ (act'.op = "cls" => st.view))
           => \A r \in 1..st.h : (r \notin st.top..st.bot /\ r # st.row) => st'.buf[r] = st.buf[r]]_vars
 LocateReported ==
-    [][(act'.op = "locate" /\ act'.done /\ act'.r # 0 /\ act'.c # 0)
+    [][(act'.op = "locate" /\ act'.done /\ act'.r # -1 /\ act'.c # -1)
           => (Csrlin(st') = act'.r /\ Pos(st') = act'.c)]_vars
 LocateOutsideRefused ==
     [][(act'.op = "locate" /\ act'.done) => (LocRow(st, act') \in 1..st.h /\ LocCol(st, act') \in 1..st.w)]_vars
